@@ -537,7 +537,7 @@ def cmd_check(args):
     sel = [h for h in reg if prop in h.props and (tier == "thorough" or h.tier == "quick")]
     if args.only:
         sel = [h for h in sel if re.search(args.only, h.name)]
-    if not sel:
+    if not sel and not (prop == "C01" and args.only and re.search(args.only, "mir_smt")):
         log("no harness registered for %s (tier %s)" % (prop, tier))
         return 2
     os.makedirs(EVIDENCE_DIR, exist_ok=True)
@@ -568,7 +568,7 @@ def cmd_check(args):
         results = []   # (cfg, Harness, HResult)
         build_errors = []
         extra_builds = run_extra_builds(prop, tier, crate_dir, logdir)
-        with cf.ThreadPoolExecutor(max_workers=len(bycfg)) as ex:
+        with cf.ThreadPoolExecutor(max_workers=max(1, len(bycfg))) as ex:
             futs = [ex.submit(run_config, crate_dir, c, hs, tier, logdir, plan[c])
                     for c, hs in sorted(bycfg.items())]
             for fu in futs:
@@ -644,6 +644,30 @@ def cmd_check(args):
                     entry["reason"] = "counterexample did not reproduce natively"
                     undecided.append((cfg, h, "counterexample did not reproduce natively "
                                       "(encoding or stub wrong?) see %s" % rp))
+        smt = run_mir_smt(prop, tier, crate_dir, logdir) if not args.only or \
+            re.search(args.only, "mir_smt") else None
+        if smt:
+            entry, verdict, info = smt
+            samples.append(entry)
+            n_checks += entry["checks"]
+            solver_time += entry["solver_s"]
+            log("[vf] %s MIR  %-44s %6.1fs queries=%d paths=%s %s" % (
+                {"pass": "ok  ", "fail": "FAIL", "undecided": "??  "}[verdict],
+                "mir_smt::qratio_full_width", entry["solver_s"], entry["checks"],
+                entry.get("paths"), entry.get("reason", "")))
+            if verdict == "pass":
+                nontrivial.add(("mir_smt", "MIR"))
+            elif verdict == "fail":
+                os.makedirs(REPLAY_DIR, exist_ok=True)
+                hsh = hashlib.sha1(json.dumps(info, sort_keys=True).encode()).hexdigest()[:10]
+                rp = os.path.join(REPLAY_DIR, "%s-mir_smt-%s.json" % (prop, hsh))
+                json.dump(info, open(rp, "w"), indent=1)
+                entry["replay"] = rp
+                violations.append(("MIR", None, rp, [(info["solver_query"], str(info["counterexample"]))]))
+            else:
+                class _H:
+                    name = "mir_smt::qratio_full_width"
+                undecided.append(("MIR", _H, entry.get("reason", "")))
         for nm, ok, detail in extra_builds:
             samples.append({"build_fact": nm, "ok": ok, "detail": detail})
             if not ok:
@@ -686,7 +710,9 @@ def cmd_check(args):
                 "undecided": len(undecided),
                 "known_findings_hit": len(seen),
                 "solver_seconds_total": round(solver_time, 1),
-                "engine": "kani 0.68.0 / CBMC 6.11.0 / CaDiCaL; unwinding assertions on",
+                "engine": "kani 0.68.0 / CBMC 6.11.0 / CaDiCaL; unwinding assertions on"
+                          + ("; plus nightly MIR -> SMT-LIB2 -> z3 4.8.12 + cvc5 1.0.3 for the "
+                             "Q-ratio slice" if smt else ""),
                 "exhaustive": False,
             },
             "assumptions": sorted({s for h in sel for s in
@@ -708,6 +734,94 @@ def cmd_check(args):
         except OSError:
             pass
     return exit_code
+
+
+def qr_native(crate_dir, logdir, triples, tag):
+    """run the real code on quartile triples (native test native_qr_replay of harness/gen.rs);
+    returns (failed, {(q1,q2,q3,pint): value}, panics)"""
+    cmd = ["cargo", "kani", "playback", "-Z", "concrete-playback", "--lib",
+           "--no-default-features", "--features", features_of("K1"),
+           "--", "native_qr_replay", "--test-threads", "1", "--nocapture"]
+    lf = os.path.join(logdir, "native-qr-%s.log" % tag)
+    env_add = {}
+    if triples:
+        env_add["VERIF_QR"] = ";".join("%d,%d,%d,%d" % (a, b, c, 1 if d else 0)
+                                       for a, b, c, d in triples)
+    old = {k: os.environ.get(k) for k in env_add}
+    os.environ.update(env_add)
+    try:
+        rc, to, _ = run_cmd(cmd, crate_dir, 1200, lf, limit=False)
+    finally:
+        for k, v in old.items():
+            if v is None:
+                os.environ.pop(k, None)
+            else:
+                os.environ[k] = v
+    out = open(lf, errors="replace").read()
+    table = {}
+    for m in re.finditer(r"(?:^|\s)QR (\d+) (\d+) (\d+) ([01]) (\d+)$", out, re.M):
+        table[(int(m.group(1)), int(m.group(2)), int(m.group(3)), m.group(4) == "1")] = int(m.group(5))
+    # (with --nocapture the test's own output sits between `test <name> ...` and the verdict)
+    failed = re.search(r"^test result: FAILED", out, re.M) is not None
+    ran = re.search(r"^running 1 test", out, re.M) is not None
+    panics = [" ".join(p) for p in re.findall(r"panicked at ([^\n]*)\n([^\n]*)", out)][:4]
+    return failed, table, panics, ran
+
+
+def run_mir_smt(prop, tier, crate_dir, logdir):
+    """C01 only: second back end (nightly MIR -> SMT-LIB2 -> z3 + cvc5) for the Q-ratio
+    arithmetic at full width; see run/mirq.py.  Returns (evidence entry, verdict, replay info)."""
+    if prop != "C01":
+        return None
+    sys.path.insert(0, os.path.dirname(os.path.abspath(__file__)))
+    import mirq
+    t0 = time.time()
+    r = mirq.run_check(crate_dir, os.path.join(BUILD, "tgt-mir"), logdir,
+                       timeout=int(os.environ.get("VERIF_SMT_TIMEOUT", "120")))
+    entry = {"harness": "mir_smt::qratio_full_width", "config": "MIR", "features": "std,easy-functions",
+             "verdict": {"pass": "pass", "fail": "fail", "undecided": "undecided"}[r["verdict"]],
+             "engine": "rustc nightly -Zunpretty=mir -> SMT-LIB2 (QF_BV + FP) -> z3 4.8.12, cvc5 1.0.3 "
+                       "(bit-blasting and --solve-bv-as-int=sum)",
+             "checks": len(r["queries"]),
+             "failed_checks": sum(1 for q in r["queries"] if q["verdict"] == "refuted"),
+             "queries": {k: sum(1 for q in r["queries"] if q["kind"] == k)
+                         for k in sorted({q["kind"] for q in r["queries"]})},
+             "solver_s": r.get("solver_s", 0.0), "functions": r["functions"], "bound": r["bound"],
+             "assumptions": r["assumptions"], "paths": r.get("paths"),
+             "havocked_statements": r.get("havocked", []), "stubs": "", "stubs_applied": []}
+    if r["reason"]:
+        entry["reason"] = r["reason"][:600]
+    info = None
+    if r["verdict"] == "fail":
+        q1, q2, q3, pint = mirq.replay_values(r)
+        failed, table, panics, ran = qr_native(crate_dir, logdir, [(q1, q2, q3, pint)], "replay")
+        info = {"property": prop, "harness": "mir_smt::qratio_full_width", "config": "MIR",
+                "counterexample": {"q1": q1, "q2": q2, "q3": q3, "pure_integer_mode": pint},
+                "solver_query": r["cex"]["query"], "native_test": "native_qr_replay",
+                "native": {"failed": failed, "panics": panics,
+                           "real_code_value": {"%d,%d,%d,%d" % k: v for k, v in table.items()}},
+                "reproduced_natively": bool(failed and panics),
+                "how_to_replay": "VERIF_QR=%d,%d,%d,%d python3 run/vf.py native K1 native_qr_replay"
+                                 % (q1, q2, q3, 1 if pint else 0)}
+        if not info["reproduced_natively"]:
+            entry["verdict"] = "undecided"
+            entry["reason"] = "solver counterexample did not reproduce natively (translator wrong?)"
+    elif r["verdict"] == "pass" and tier == "thorough":
+        # translator validation: the real code's values on a fixed table of quartile triples must
+        # be the values the MIR-derived terms take on the same inputs
+        failed, table, panics, ran = qr_native(crate_dir, logdir, None, "table")
+        if failed or not table:
+            entry["verdict"] = "undecided"
+            entry["reason"] = "translator validation: native table run failed: %s" % panics
+        else:
+            bad = mirq.validate_against(table, logdir)
+            entry["translator_validation"] = {"triples": len(table), "mismatches": bad[:3]}
+            entry["checks"] += len(table)
+            if bad:
+                entry["verdict"] = "undecided"
+                entry["reason"] = "translator validation: encoding disagrees with the real code on %s" % bad[:3]
+    entry["wall_s"] = round(time.time() - t0, 1)
+    return entry, entry["verdict"], info
 
 
 def run_extra_builds(prop, tier, crate_dir, logdir):
@@ -732,6 +846,23 @@ def cmd_replay(args):
     if "harness" not in info:
         log(json.dumps(info, indent=1))
         return 1
+    if info.get("config") == "MIR":
+        c = info["counterexample"]
+        root, crate_dir = make_overlay("replay")
+        try:
+            ld = os.path.join(BUILD, "logs", "replay")
+            os.makedirs(ld, exist_ok=True)
+            failed, table, panics, ran = qr_native(
+                crate_dir, ld, [(c["q1"], c["q2"], c["q3"], c["pure_integer_mode"])], "replay")
+            log("[vf] real code on quartiles %s: %s %s" % (c, table, panics))
+            log("[vf] native replay: %s" % ("the violation reproduces" if failed else "no failure"))
+            return 1 if failed else 0
+        finally:
+            shutil.rmtree(root, ignore_errors=True)
+            try:
+                os.remove(root + ".pid")
+            except OSError:
+                pass
     h = reg[info["harness"]]
     root, crate_dir = make_overlay("replay")
     try:
@@ -785,7 +916,9 @@ def cmd_list(args):
 def cmd_setup(args):
     """Warm the per-configuration dependency caches (offline)."""
     os.makedirs(BUILD, exist_ok=True)
-    for tool in (["cargo", "kani", "--version"], ["cbmc", "--version"]):
+    for tool in (["cargo", "kani", "--version"], ["cbmc", "--version"],
+                 # second back end of C01 (run/mirq.py)
+                 ["cargo", "+nightly", "--version"], ["z3", "--version"], ["cvc5", "--version"]):
         subprocess.run(tool, check=True, stdout=subprocess.DEVNULL)
     load_registry()
     log("[vf] setup ok")
